@@ -73,7 +73,8 @@ func (self LazyArgumentMap) ValidateInputs(types *syntax.TypeLookup,
 		t := param.GetTname()
 		return t.String()
 	}
-	for _, param := range expected.Table {
+	// In declaration order, so that the text does not change from run to run.
+	for _, param := range expected.List {
 		if val, ok := self[param.GetId()]; !ok {
 			fmt.Fprintf(&result, "Missing input parameter '%s'\n", param.GetId())
 			continue
@@ -90,7 +91,8 @@ func (self LazyArgumentMap) ValidateInputs(types *syntax.TypeLookup,
 				err.Error())
 		}
 	}
-	for key, val := range self {
+	for _, key := range self.sortedKeys() {
+		val := self[key]
 		if _, ok := expected.Table[key]; !ok {
 			isOptional := false
 			for _, params := range optional {
@@ -148,7 +150,7 @@ func (self LazyArgumentMap) ValidateOutputs(types *syntax.TypeLookup,
 		t := param.GetTname()
 		return t.String()
 	}
-	for _, param := range expected.Table {
+	for _, param := range expected.List {
 		if val, ok := self[param.GetId()]; !ok {
 			fmt.Fprintf(&result, "Missing output value '%s'\n", param.GetId())
 			continue
@@ -165,7 +167,8 @@ func (self LazyArgumentMap) ValidateOutputs(types *syntax.TypeLookup,
 				err.Error())
 		}
 	}
-	for key, val := range self {
+	for _, key := range self.sortedKeys() {
+		val := self[key]
 		if _, ok := expected.Table[key]; !ok {
 			isOptional := false
 			for _, params := range optional {
@@ -741,4 +744,13 @@ func argumentMapFromStruct(t reflect.Type, v reflect.Value) MarshalerMap {
 		}
 	}
 	return m
+}
+
+func (self LazyArgumentMap) sortedKeys() []string {
+	keys := make([]string, 0, len(self))
+	for key := range self {
+		keys = append(keys, key)
+	}
+	sort.Strings(keys)
+	return keys
 }
